@@ -88,7 +88,36 @@ func topCall(s ast.Stmt) *ast.CallExpr {
 	return nil
 }
 
-func (st *State) exec(s ast.Stmt) []Outcome {
+func (st *State) exec(s ast.Stmt) (outs []Outcome) {
+	if c := st.fc.Contract; c != nil && c.Partial {
+		// "partial" contracts: a statement outside the supported subset is allowed only where it is unreachable;
+		// reaching it becomes an obligation (false under the path condition) and the path ends there
+		switch s.(type) {
+		case *ast.BlockStmt, *ast.IfStmt, *ast.ForStmt, *ast.RangeStmt, *ast.SwitchStmt, *ast.LabeledStmt:
+		default:
+			defer func() {
+				if r := recover(); r != nil {
+					e, ok := r.(vcErr)
+					if !ok {
+						panic(r)
+					}
+					goal := "false"
+					if c.PartialWhen != nil {
+						// reached only in the declared circumstances (a condition over the entry state); the path is then left unverified
+						env := st.fc.newSpecEnv(st, nil, st.fc.entrySnap, st.fc.bodyPos, st.fc.Name+"/partial")
+						goal = env.inOld().evalBool(c.PartialWhen)
+					}
+					st.oblige("unsupported", "unreachable("+string(e)+")", goal, s.Pos())
+					st.fc.noteAssumption("statements outside the supported subset are proved unreachable under the contract's preconditions: " + string(e))
+					outs = nil
+				}
+			}()
+		}
+	}
+	return st.exec1(s)
+}
+
+func (st *State) exec1(s ast.Stmt) []Outcome {
 	switch x := s.(type) {
 	case *ast.BlockStmt:
 		return st.execBlock(x.List)
